@@ -526,13 +526,13 @@ package gldap
 //@   requires reqOK(r)
 //@   ensures  result != nil && fresh(result) && result.baseResponse != nil && result.messageID == msgID(r.message) && result.entry.DN == entryDN
 //@   ensures  forall(j, 0, len(result.entry.Attributes), result.entry.Attributes[j] != nil)
-//@   ensures  fresh(result.baseResponse) && (cap(result.entry.Attributes) > 0 ==> fresh(arrOf(result.entry.Attributes)))
+//@   ensures  fresh(result.baseResponse) && fresh(arrOf(result.entry.Attributes))
 //@   panics false
 //@   modifies nothing
 //@   tags C04 C16
 //@ loop 1
 //@   invariant forall(j, 0, len(newAttrs), newAttrs[j] != nil)
-//@   invariant cap(newAttrs) > 0 ==> fresh(arrOf(newAttrs))
+//@   invariant fresh(arrOf(newAttrs))
 //@   modifies cell(*EntryAttribute)@newAttrs
 //@ func (*gldap.SearchResponseEntry).AddAttribute
 //@   requires r != nil && forall(j, 0, len(r.entry.Attributes), r.entry.Attributes[j] != nil)
